@@ -122,6 +122,9 @@ type world struct {
 	dyn   bool
 	via   string // "host": Host header (op.IssuerFromHost); "forwarded": Forwarded header (op.IssuerFromForwardedOrHost)
 	hosts []string
+	// lean: the provider runs over the lean storage variant (lean_test.go): the storage does not repeat the expiry
+	// check the framework owns for JWT access tokens
+	lean bool
 	// requests served under the other host before the judged one in the "~all" variant ("R" = router@host of the judged request)
 	battery []string
 	// client assertions (private_key_jwt), one per client and clock bucket, signed up front
@@ -160,6 +163,9 @@ func (w *world) newRig() *rig.Rig {
 		} else {
 			o.IssuerFn = op.IssuerFromHost("")
 		}
+	}
+	if w.lean {
+		return newLeanRig(o.Cfg, o.IssuerFn)
 	}
 	return rig.MustNew(o)
 }
@@ -232,6 +238,7 @@ type part struct {
 	dyn         bool
 	via         string
 	depth       int
+	lean        bool
 }
 
 func jwtPayload(tok string) (map[string]any, []byte, bool) {
@@ -251,7 +258,7 @@ func jwtPayload(tok string) (map[string]any, []byte, bool) {
 }
 
 func build(t *testing.T, c *engine.Check, thorough bool, pt part) *world {
-	w := &world{byName: map[string]*tok{}, dyn: pt.dyn, via: pt.via, hosts: []string{"a.example", "b.example"}, users: newCfg().Users, clients: newCfg().Clients}
+	w := &world{byName: map[string]*tok{}, dyn: pt.dyn, via: pt.via, lean: pt.lean, hosts: []string{"a.example", "b.example"}, users: newCfg().Users, clients: newCfg().Clients}
 	famNames, refreshable := pt.fams, pt.refreshable
 	for _, n := range famNames {
 		f := familyCatalog[n]
@@ -611,7 +618,7 @@ func build(t *testing.T, c *engine.Check, thorough bool, pt part) *world {
 	if thorough && !w.dyn {
 		exTypes = append(exTypes, "jwt") // a type the provider hands to TokenExchangeTokensVerifierStorage (third-party tokens)
 	}
-	if w.dyn { // the host dimension is the subject of these parts; caller / hint / channel spellings are covered by the static parts
+	if w.dyn || w.lean { // the host / storage-variant dimension is the subject of these parts; caller / hint / channel spellings are covered by the static parts
 		uiChannels = []string{"hdr", "form"}
 		inCallers = []string{"owner", "api", "nonaud"}
 		rvBy = []string{"owner", "foreign"}
@@ -740,6 +747,11 @@ func build(t *testing.T, c *engine.Check, thorough bool, pt part) *world {
 					*all = append(*all, strings.Join([]string{"uku", R, tk.name, "logout"}, "|"))
 				}
 			}
+			// use - expire - use on one provider object: the token is presented at every endpoint while it is valid, the
+			// clock moves past its expiry, it is presented again
+			if !w.dyn && tk.genuine != genNone {
+				*all = append(*all, strings.Join([]string{"uxu", R, tk.name}, "|"))
+			}
 			// end_session with a string that is not the family's id token as id_token_hint: forged / foreign /
 			// expired-and-forged id tokens, JWT access tokens, garbage
 			if !w.dyn && tk.gen == 0 && ((jwtish && tk.genuine != genIDT) || tk.kind == "jwt-at" || tk.name == "g.garbagetxt") {
@@ -823,6 +835,17 @@ type S struct {
 
 // str is the string the actors present for tk in state s.
 func (w *world) str(s S, tk *tok) string {
+	str := w.issued(s, tk)
+	if w.lean && tk.genuine == genAT && tk.kind == "jwt-at" && expiredButStored(s.St, tk.id, w.now(s)) {
+		// lean storage: nothing but the framework's exp check stands between this string and the record. Presented
+		// as a twin (same header and payload, fresh signature) that no request of this process has carried yet.
+		return resign(str)
+	}
+	return str
+}
+
+// issued is the string the provider handed out for tk (second generation: held in the state).
+func (w *world) issued(s S, tk *tok) string {
 	if tk.gen == 0 {
 		return tk.str
 	}
@@ -1079,7 +1102,7 @@ func (w *world) newStep(t *testing.T) func(int) func(S, string) (S, engine.Resul
 			// Primed operations ("~p") always run on a provider of their own: the priming requests, then the judged one.
 			r := w.newRig()
 			return func(s S, opl string) (S, engine.Result) {
-				if strings.HasSuffix(opl, "~p") || strings.HasPrefix(opl, "uku|") {
+				if strings.HasSuffix(opl, "~p") || strings.HasPrefix(opl, "uku|") || strings.HasPrefix(opl, "uxu|") {
 					return w.exec(t, w.newRig(), s, opl)
 				}
 				post, res := w.exec(t, r, s, opl)
@@ -1172,16 +1195,20 @@ func (w *world) exec(t *testing.T, r *rig.Rig, s S, opl string) (S, engine.Resul
 	now := w.now(s)
 	l0 := w.liveness(s.St, now)
 	var resp *rig.Resp
-	do := func(method, path string, form url.Values, hdr map[string]string) {
-		pan := engine.Bubble(t, w.clocks[s.Clock], func() {
-			resp = r.Do(router, w.req(host, method, path, form, hdr))
-		})
-		if resp == nil {
-			resp = &rig.Resp{Panic: "bubble: " + pan}
-		} else if pan != "" && resp.Panic == "" {
-			resp.Panic = pan
+	doAt := func(clock int) doFn { // one request with the fake clock in bucket clock
+		return func(method, path string, form url.Values, hdr map[string]string) {
+			resp = nil
+			pan := engine.Bubble(t, w.clocks[clock], func() {
+				resp = r.Do(router, w.req(host, method, path, form, hdr))
+			})
+			if resp == nil {
+				resp = &rig.Resp{Panic: "bubble: " + pan}
+			} else if pan != "" && resp.Panic == "" {
+				resp.Panic = pan
+			}
 		}
 	}
+	do := doAt(s.Clock)
 	var res engine.Result
 	var eff effect
 	var opKind, inClass string
@@ -1219,6 +1246,8 @@ func (w *world) exec(t *testing.T, r *rig.Rig, s S, opl string) (S, engine.Resul
 		res, eff, opKind, inClass = w.doEndSessionForged(s, p, router, host, do, &resp)
 	case "uku":
 		res, eff, opKind, inClass = w.doUseKillUse(s, p, router, host, do, &resp)
+	case "uxu":
+		res, opKind, inClass = w.doUseExpireUse(s, p, router, doAt, &resp)
 	default:
 		return s, engine.Bad("internal", "unknown-op", "C08/internal/unknown-op", opl)
 	}
@@ -1896,6 +1925,7 @@ func TestCheck(t *testing.T) {
 		{name: "dynamic-issuer", fams: []string{"ja", "jb", "oa"}, dyn: true, via: "host", depth: 3},
 		{name: "owners", fams: []string{"pc", "jc", "wa", "wb"}, depth: 3},
 		{name: "grants", fams: []string{"cc", "dv", "bj", "xd", "cs"}, depth: 3},
+		{name: "lean-storage", fams: []string{"webjwt", "dv", "wa"}, lean: true, depth: 3},
 	}
 	if thorough {
 		// two compositions instead of one product of five families: families interact only through a
@@ -1907,6 +1937,7 @@ func TestCheck(t *testing.T) {
 			{name: "dynamic-issuer-forwarded-thorough", fams: []string{"ja", "jb", "oa"}, dyn: true, via: "forwarded", depth: 3},
 			{name: "owners-thorough", fams: []string{"pc", "jc", "wa", "wb"}, depth: 20},
 			{name: "grants-thorough", fams: []string{"cc", "dv", "bj", "xd", "cs"}, depth: 20},
+			{name: "lean-storage-thorough", fams: []string{"webjwt", "dv", "wa"}, refreshable: []string{"webjwt"}, lean: true, depth: 20},
 		}
 	}
 	alphabet := map[string]any{}
@@ -1921,7 +1952,11 @@ func TestCheck(t *testing.T) {
 		}
 		alphabet[pt.name] = map[string]any{"families": pt.fams, "refresh_enabled_for": pt.refreshable, "token_strings": len(w.toks),
 			"operations_per_state_max": len(w.enabled(S{Held: map[string]held{"web": {}, "webjwt": {}, "ja": {}}})), "clock_buckets_s": secs(w.clocks),
-			"dynamic_issuer": pt.dyn, "hosts": map[bool][]string{true: w.hosts}[pt.dyn]}
+			"dynamic_issuer": pt.dyn, "hosts": map[bool][]string{true: w.hosts}[pt.dyn],
+			"storage_variant": map[bool]string{false: "refstore", true: "lean (no expiry check on records of JWT access tokens)"}[pt.lean]}
+		if pt.lean {
+			alphabet[pt.name].(map[string]any)["twin_of_live_jwt_served"] = w.twinServedWhileLive(t)
+		}
 		engine.RunE2(c, engine.E2[S]{
 			Part:      pt.name,
 			Init:      S{St: w.init, Clock: 0},
